@@ -66,6 +66,7 @@ func Main() {
 				fmt.Fprintln(os.Stderr, "encode:", e)
 				os.Exit(3)
 			}
+			out.Flush() // one observation per case reaches the parent even if a later case kills the process
 			i++
 		}
 		if err != nil {
